@@ -54,6 +54,9 @@ def kind_text(kind, i, rot=0):
         'reqsub': ['>>> # xdoctest: +REQUIRES(module:%s.xdv_no_such_submodule)' % PKGS[rot % len(PKGS)], ">>> x = p(%d, 'o1')" % a, 'o1'],
         'reqpkg': ['>>> # xdoctest: +REQUIRES(module:%s)' % PKGS[rot % len(PKGS)], ">>> x = p(%d, 'o1')" % a, 'o1'],
         # rebinds the module's global G (1) and wants a value it can only reach if its own earlier binding survived
+        # only the FIRST line of a doctest can force-disable it
+        'latenote': [">>> x = p(%d, 'o1')" % a, 'o1', '>>> # %s' % DISABLE_SPELLINGS[(rot + i) % len(DISABLE_SPELLINGS)].strip(), ">>> s = '>>> # SCRIPT'"],
+        'latenotefail': [">>> x = p(%d, 'o1')" % a, 'WRONG', '>>> # failing inputs are a topic of their own'],
         'bumpfail': ['>>> G = G + 1', '>>> x = p(%d)' % a, '>>> print(G)', '3'],
     }
     return t[kind]
@@ -73,7 +76,7 @@ def kind_stdout(kind, env=1):
     return {'pass': 'o1\n', 'failout': 'o1\n', 'failexc': '', 'failcompile': '', 'faildirective': '', 'skipall': '', 'skippart': 'o2\n', 'expexc': '', 'comment': '', 'disabled': 'o1\n',
             'disabledfail': 'o1\n', 'needell': 'o1 and more\n', 'bind': 'o1\n', 'probe': 'False\n', 'rebind': '5\n', 'readg': '1 1\n',
             'leaveskip': 'o1\n', 'leavereq': 'o1\n', 'reportstyle': 'o1\n', 'trail': 'a\n' if env == 1 else 'b\n', 'swapout': 'o1\n', 'warns': 'o1\n',
-            'filters': 'o1\n', 'reqsub': '', 'reqpkg': 'o1\n', 'bumpfail': '2\n'}[kind]
+            'filters': 'o1\n', 'reqsub': '', 'reqpkg': 'o1\n', 'bumpfail': '2\n', 'latenote': 'o1\n', 'latenotefail': 'o1\n'}[kind]
 
 
 def render_module(kinds, rot=0, layout='google'):
